@@ -79,7 +79,7 @@ func NewHub(o HubOpts) *Hub {
 
 func (h *Hub) open() {
 	h.Env = &conf.Config{
-		Logger:               zap.NewNop().Sugar(),
+		Logger:               hubLogger(),
 		StoreLocation:        filepath.Join(h.Dir, "store"),
 		FullsyncLeaseTimeout: h.Lease,
 		Auth:                 &conf.AuthConfig{Middleware: "noop"},
@@ -368,4 +368,20 @@ func (h *Hub) DatasetNames() []string {
 	}
 	sort.Strings(out)
 	return out
+}
+
+// hubLogger: silent by default; VERIF_HUB_LOG=1 prints the hub's error-level log
+// lines (development aid: the hub logs and ignores e.g. a failed badger.Open).
+func hubLogger() *zap.SugaredLogger {
+	if os.Getenv("VERIF_HUB_LOG") == "" {
+		return zap.NewNop().Sugar()
+	}
+	cfg := zap.NewDevelopmentConfig()
+	cfg.Level = zap.NewAtomicLevelAt(zap.ErrorLevel)
+	cfg.DisableStacktrace = true
+	l, err := cfg.Build()
+	if err != nil {
+		return zap.NewNop().Sugar()
+	}
+	return l.Sugar()
 }
